@@ -194,4 +194,4 @@ def strategy(draw):
 
 
 def subchecks(tier):
-    return [Sub("greedy", greedy_case, strategy=strategy, n_quick=1200, n_thorough=30000, shards_quick=4)]
+    return [Sub("greedy", greedy_case, strategy=strategy, n_quick=1200, n_thorough=80000, shards_quick=4)]
